@@ -667,15 +667,20 @@ class Parser:
 
     def expand_help(self, atoms: list[tuple[ast.Name, TokenInfo]], **_: int) -> ast.Call | None:
         node: ast.Call | None = None
+        start: dict[str, int] = {}
         for atom, tok in atoms:
             fn = "superhelp" if tok.is_exact_type("??") else "help"
             if node is None:
-                node = xonsh_call(f"__xonsh__.{fn}", atom, **tok.loc())
+                # every node of the chain starts where the first atom starts
+                start = {"lineno": atom.lineno, "col_offset": atom.col_offset}
+                node = xonsh_call(f"__xonsh__.{fn}", atom, **start, **tok.loc_end())
             else:
+                attr_end = {"end_lineno": atom.end_lineno, "end_col_offset": atom.end_col_offset}
                 node = xonsh_call(
                     f"__xonsh__.{fn}",
-                    ast.Attribute(value=node, attr=atom.id, ctx=Load, **tok.loc()),
-                    **tok.loc(),
+                    ast.Attribute(value=node, attr=atom.id, ctx=Load, **start, **attr_end),  # type: ignore[arg-type]
+                    **start,
+                    **tok.loc_end(),
                 )
         return node
 
